@@ -75,19 +75,15 @@ def abtest(case):
     return {'picks': picks}
 
 
-def latest(case):
-    """History of registry contents; one select per step (after waiting for the refresh interval)."""
-    steps = case['steps']
-    content = {'prj': {str(r): list(g) for r, g in steps[0]}}
-    directory = asset.Directory(Registry(content))
-    selector = application.Latest('prj', release=None if case['release'] is None else str(case['release']), refresh=0.05)
+def _follow(selector, directory, steps):
+    """One select per step of a registry history (after waiting for a refresh that started after the change)."""
     out = []
     for i, step in enumerate(steps):
         if i:
             registry = directory.registry
             registry.content['prj'] = {str(r): list(g) for r, g in step}
             # wait for a refresh that STARTED after the change to have finished (not for a fixed time: the refresher
-            # thread may be starved on a loaded machine): two further listings, then the interval once more
+            # thread may be starved on a loaded machine): further listings, then the interval once more
             seen, deadline = registry.listings, time.time() + 5
             while registry.listings < seen + 4 and time.time() < deadline:
                 time.sleep(0.01)
@@ -98,7 +94,20 @@ def latest(case):
             out.append(None)
         except asset.Level.Invalid:
             out.append(None)
-    return {'picks': out}
+    return out
+
+
+def latest(case):
+    """History of registry contents; one select per step. With `second`: the SAME selector then serves another registry
+    (first selected after the refresher thread has started) through its own history."""
+    selector = application.Latest('prj', release=None if case['release'] is None else str(case['release']), refresh=0.05)
+    first = asset.Directory(Registry({'prj': {str(r): list(g) for r, g in case['steps'][0]}}))
+    out = {'picks': _follow(selector, first, case['steps'])}
+    if case.get('second'):
+        time.sleep(0.2)     # the refresher thread is up and running by now
+        second = asset.Directory(Registry({'prj': {str(r): list(g) for r, g in case['second'][0]}}))
+        out['picks2'] = _follow(selector, second, case['second'])
+    return out
 
 
 def explicit(case):
